@@ -15,6 +15,9 @@ from ..aggdriver import AggWorld
 ROLES = ["r1", "r2", "r3"]
 UNITS = {"open": [], "one": ["r1"], "two": ["r1", "r2"]}           # unit key -> required roles
 USER_ROLES = [[], ["r1"], ["r2"], ["r3"], ["r1", "r3"], ["r2", "r3"]]
+# offline units: key -> the required roles of their successive sessions (the last one counts)
+OFFLINE = {"same": [["r1"], ["r1"]], "moved": [["r1"], ["r2"]], "opened": [["r1", "r2"], []], "closed": [[], ["r2"]],
+           "narrowed": [["r1", "r2"], ["r2"]]}
 SECRET_TAG = "SecretTag"
 
 BODIES = {
@@ -78,6 +81,23 @@ def _world(scratch):
         world.send(EM.RunStartedMsg(engine_id=eid, run_id=f"run-{key}-now", started_tick=3.0))
         world.send(EM.TagsUpdatedMsg(engine_id=eid, run_id=f"run-{key}-now",
                                      tags=[Mdl.TagValue(name=SECRET_TAG, tick_time=4.0, value=4242, value_unit=None)]))
+    # units that are offline now (listed from the database): their required roles are those of their last session
+    offline = {}
+    for key, sessions in OFFLINE.items():
+        comp = f"c-off-{key}"
+        eid = world.agg.create_engine_id(world.register_msg(comp, "uod"))
+        for n, req in enumerate(sessions):
+            world.register(comp, "uod")
+            world.connect_ws(eid)
+            world.uod_info(eid, [SECRET_TAG], roles=req)
+            rid = f"run-off-{key}-{n}"
+            world.send(EM.RunStartedMsg(engine_id=eid, run_id=rid, started_tick=1.0))
+            world.send(EM.RunStoppedMsg(engine_id=eid, run_id=rid, runlog=Mdl.RunLog.empty(),
+                                        method_state=Mdl.MethodState(started_line_ids=[], executed_line_ids=[], injected_line_ids=[],
+                                                                     failed_line_ids=[]), archive=None, archive_filename=None))
+            world.disconnect_ws(eid)
+        offline[key] = (eid, sessions[-1])
+    world.offline = offline
     return world, dbfile, ids, runs
 
 
@@ -150,11 +170,13 @@ def _collect(ctx, scratch):
     for roles in USER_ROLES:
         current["roles"] = set(roles)
         resources = [{"id": ids[k], "required": req} for k, req in UNITS.items()]
+        off = [{"id": eid, "required": req} for eid, req in world.offline.values()]
         for path in ("/api/process_units", "/api/process_units/all_process_values"):
             resp = client.get(path, headers={"X-Identity": ",".join(roles)})
             text = resp.text
-            ev.append({"e": "listing", "route": "GET " + path, "roles": roles, "resources": resources,
-                       "returned": [ids[k] for k in UNITS if ids[k] in text]})
+            res = resources + (off if path == "/api/process_units" else [])
+            ev.append({"e": "listing", "route": "GET " + path, "roles": roles, "resources": res,
+                       "returned": [r["id"] for r in res if r["id"] in text]})
         resp = client.get("/api/recent_runs/", headers={"X-Identity": ",".join(roles)})
         ev.append({"e": "listing", "route": "GET /api/recent_runs/", "roles": roles,
                    "resources": [{"id": runs[k], "required": req} for k, req in UNITS.items()],
